@@ -403,7 +403,12 @@ pub async fn build_segment_stream(
             .collect();
         let runner = SegmentQueryRunner::new(plan_for_task.as_ref(), steps)
             .with_caches(Some(Arc::as_ref(&caches_for_task)))
-            .with_limit(limit_override.or_else(|| plan_for_task.limit()));
+            // LIMIT on an aggregate caps groups at the merger, not the rows scanned here.
+            .with_limit(if plan_for_task.aggregate_plan.is_some() {
+                None
+            } else {
+                limit_override.or_else(|| plan_for_task.limit())
+            });
         if let Err(err) = runner
             .stream_into(ctx_for_task, Arc::clone(&schema_for_task), source_tx)
             .await
